@@ -257,7 +257,8 @@ def zero_over_runtime(t: T):
 
 
 VIEW_FUNCS = ("numpy.asarray", "numpy.asanyarray", "numpy.squeeze", "numpy.ravel", "numpy.reshape", "numpy.atleast_1d", "numpy.atleast_2d",
-              "numpy.transpose", "numpy.ascontiguousarray")
+              "numpy.transpose", "numpy.ascontiguousarray", "numpy.require", "numpy.asfortranarray", "numpy.asarray_chkfinite",
+              "numpy.expand_dims", "numpy.broadcast_to", "numpy.moveaxis", "numpy.swapaxes", "numpy.diagonal")
 VIEW_ATTRS = ("values", "T", "array", "real")
 VIEW_METHODS = ("squeeze", "ravel", "reshape", "view", "transpose", "to_numpy", "swapaxes")
 
@@ -289,7 +290,7 @@ def may_alias(t: T, is_root) -> bool:
     return False
 
 
-def inplace_updates_of_foreign_values(r: Result, is_root):
+def inplace_updates_of_foreign_values(r: Result, is_root, prog=None):
     """`x op= e` on a local name (ndarray.__iop__ updates the buffer) and `x[k] = v` where x may alias a value the function did
     not create.  Returns [(event, description)]."""
     import ast as _ast
@@ -308,4 +309,62 @@ def inplace_updates_of_foreign_values(r: Result, is_root):
                 holder = holder.args[0]
             if may_alias(holder, is_root):
                 out.append((e, "item assignment"))
+    for e, other in shared_local_augassign(r, prog):
+        if not any(e is x for x, _ in out):
+            out.append((e, f"augmented assignment through a second name of `{other}`"))
     return out
+
+
+# `x = y; x op= e`: for a mutable y (ndarray, Series) the second name changes too.  The instances of the clean tree whose shared
+# value is a Python number are listed here, one reason each.
+AUG_SHARED_OK = {
+    ("fairlearn.reductions._exponentiated_gradient._lagrangian:_Lagrangian._eval", "L_high", "error"):
+        "error is a Python float: Series.dot(Series) or one element of gamma()",
+}
+
+
+def shared_local_augassign(r: Result, prog):
+    """`x op= e` on a local name whose current value is the object another name of the same function is bound to and that
+    other name is read again later (or is a parameter: the caller still holds it).  Values that are Python numbers for sure
+    (literals, len(), int()/float(), arithmetic on those) cannot be updated in place and are skipped.
+    Returns [(event, other name)]."""
+    import ast as _ast
+    out = []
+    for e in r.events:
+        if e.kind != "store" or e.data.get("tkind") != "name" or not isinstance(e.node, _ast.AugAssign):
+            continue
+        v = e.data["value"]
+        cur = v.args[1] if v.op == "binop" else None
+        if cur is None or _number_for_sure(cur):
+            continue
+        fi = prog.functions.get(e.func) if prog is not None else None
+        for other in e.data.get("shared", ()):
+            if (e.func, e.data["name"], other) in AUG_SHARED_OK:
+                continue
+            node = fi.node if fi is not None else None
+            live = node is None
+            if node is not None:
+                params = {a.arg for a in node.args.args + node.args.kwonlyargs + node.args.posonlyargs}
+                live = other in params or any(isinstance(n, _ast.Name) and n.id == other and isinstance(n.ctx, _ast.Load) and
+                                              (n.lineno, n.col_offset) > (e.node.lineno, e.node.col_offset)
+                                              for n in _ast.walk(node)) or any(
+                    isinstance(lp, (_ast.For, _ast.While)) and lp.lineno <= e.node.lineno <= (lp.end_lineno or lp.lineno)
+                    for lp in _ast.walk(node))
+            if live:
+                out.append((e, other))
+    return out
+
+
+def _number_for_sure(t: T) -> bool:
+    if t.op == "const":
+        return not isinstance(const_value(t), (list, tuple, dict))
+    if t.op == "sub" and t.args[0].op == "attr" and t.args[0].args[1] == "shape":
+        return True
+    if t.op == "call" and t.args[0].op == "global" and t.args[0].args[0] in ("builtins.len", "builtins.int", "builtins.float", "builtins.bool",
+                                                                                "builtins.round", "time.time"):
+        return True
+    if t.op == "binop":
+        return _number_for_sure(t.args[1]) and _number_for_sure(t.args[2])
+    if t.op == "ite":
+        return _number_for_sure(t.args[1]) and _number_for_sure(t.args[2])
+    return False
